@@ -19,7 +19,7 @@ ASSUMPTIONS = [
     "SymNCO is run with its default beta = 1 (which of the two symmetric terms beta multiplies is then immaterial)",
     "PPO reference: clipped surrogate + vf_lambda * Huber(delta=1) - entropy_lambda * mean entropy, as documented in the class",
 ]
-REQUIRED_COUNTERS = ["c16_fits", "c16_steps_checked", "c16_gradients_compared", "c16_rollout_weights_compared", "c16_dot_grad_checked", "c16_nonzero_gradients", "c16_rollout_steps", "c16_warmup_alpha0_steps", "c16_shared_groups_checked", "c16_ppo_minibatches", "c16_warmup_critic_steps", "c16_steps_after_warmup_end", "c16_rollout_values_checked"]
+REQUIRED_COUNTERS = ["c16_scaled_advantage_steps", "c16_fits", "c16_steps_checked", "c16_gradients_compared", "c16_rollout_weights_compared", "c16_dot_grad_checked", "c16_nonzero_gradients", "c16_rollout_steps", "c16_warmup_alpha0_steps", "c16_shared_groups_checked", "c16_ppo_minibatches", "c16_warmup_critic_steps", "c16_steps_after_warmup_end", "c16_rollout_values_checked"]
 MIN_NONTRIVIAL = {"quick": 250, "thorough": 3000}
 WORKERS = {"quick": 14, "thorough": 16}
 BUDGET_S = {"quick": 600, "thorough": 3000}
@@ -40,6 +40,13 @@ def cases(tier, seed):
                 out.append(dict(model=f"reinforce:{b}", env=env, s=rnd.randrange(10**6), epochs=3, bs=rnd.choice([3, 5])))
             for warm in (1, 2, 3):
                 out.append(dict(model="reinforce:rollout", env=env, s=rnd.randrange(10**6), epochs=4, warm=warm, bs=5))
+            # documented options of the loss: advantage scaling (running statistics over the whole history), decay of the
+            # exponential baselines (plain, and the one used during the rollout baseline's warm-up)
+            for sc in ("norm", "scale", 3):
+                out.append(dict(model=f"reinforce:{rnd.choice(['no', 'mean', 'exponential', 'critic'])}", env=env, s=rnd.randrange(10**6), epochs=3, bs=rnd.choice([3, 5]), reward_scale=sc))
+            out.append(dict(model="pomo", env=env, s=rnd.randrange(10**6), epochs=2, S=3, bs=3, reward_scale=rnd.choice(["norm", "scale"])))
+            out.append(dict(model="reinforce:exponential", env=env, s=rnd.randrange(10**6), epochs=3, bs=5, beta=rnd.choice([0.5, 0.95, 0.3])))
+            out.append(dict(model="reinforce:rollout", env=env, s=rnd.randrange(10**6), epochs=4, warm=rnd.choice([2, 3]), bs=5, exp_beta=rnd.choice([0.5, 0.3, 0.95])))
             out.append(dict(model="a2c", env=env, s=rnd.randrange(10**6), epochs=2, bs=4))
             for warm in (1, 2):
                 out.append(dict(model="reinforce_warmup_critic", env=env, s=rnd.randrange(10**6), epochs=warm + 3, warm=warm, bs=5, train=10))
